@@ -253,7 +253,9 @@ def _run_recon(desc):
             ymin = -(ny // 2) * ystep
             for y0s in (0.0, 2.5, -2.5, 3.3, -3.3):
                 y0 = y0s * ystep
-                for rng_name, omega in (("0-180", np.arange(0.0, 180.0, 1.0)), ("0-360", np.arange(0.0, 360.0, 2.0))):
+                # ... and a scan with exactly as many projections as dty steps (a square sinogram)
+                for rng_name, omega in (("0-180", np.arange(0.0, 180.0, 1.0)), ("0-360", np.arange(0.0, 360.0, 2.0)),
+                                        ("0-180 in ny projections", np.arange(ny) * (180.0 / ny))):
                     sino, inside = point_sino(G, sx, sy, y0, ny, ymin, ystep, omega)
                     if not inside:
                         sh.count("skipped_grain_leaves_scanned_range")
